@@ -314,6 +314,7 @@ func execC15(c C15Case) *Failure {
 
 	seq := 0
 	expectedStages := 0
+	sessOwner := map[string]string{} // session id seen by the stages of a session-less request -> that request
 	for bi, batch := range c.Batches {
 		type sent struct {
 			req   C15Req
@@ -452,6 +453,15 @@ func execC15(c C15Case) *Failure {
 				}
 				if parts[1] != "-" && parts[1] != parts[0] {
 					return Failf("C15/foreign-session", "%s: stage %s: ClientSessionFromContext=%q but GetSessionFromContext=%q", where, gotTrace[k], parts[1], parts[0])
+				}
+			}
+			if wantSID == "" && len(gotSess) > 0 {
+				// a request that belongs to no session runs with a session object of its own: no other request's stages see it
+				if sid := strings.SplitN(gotSess[0], "/", 2)[0]; sid != "" && sid != "-" {
+					if other, taken := sessOwner[sid]; taken && other != it.id {
+						return Failf("C15/shared-session", "%s: its stages ran with session %q, which the stages of request %s had as well (requests outside any session share nothing)", where, sid, other)
+					}
+					sessOwner[sid] = it.id
 				}
 			}
 			// client-visible outcome
